@@ -18,6 +18,7 @@ func main() {
 	prop := flag.String("prop", "", "property id")
 	tier := flag.String("tier", "quick", "quick|thorough")
 	verif := flag.String("verif", "/verif", "verif directory (evidence, replays, known findings)")
+	out := flag.String("out", "", "directory for evidence/ and replays/ (default: the verif directory)")
 	replay := flag.String("replay", "", "replay file")
 	deadline := flag.Duration("deadline", 0, "internal deadline (0 = none)")
 	flag.Parse()
@@ -25,6 +26,10 @@ func main() {
 		core.InternalError("reference model self-test failed: %v", err)
 	}
 	checks.VerifDir = *verif
+	if *out == "" {
+		*out = *verif
+	}
+	core.OutDir = *out
 	if *replay != "" {
 		core.Replay(*replay)
 	}
